@@ -312,7 +312,8 @@ Proof.
   all: try (rewrite upd_same; discriminate).
   all: try (unfold settled; simpl; rewrite ?upd_same, ?C4, ?E; auto; fail).
   all: try (intros _; right; intros r0 Hr0;
-            match goal with Hc : match res _ _ with _ => _ end = true |- _ => rewrite Hr0 in Hc; exact Hc end).
+            match goal with Hc : match res _ _ with _ => _ end = true |- _ =>
+              rewrite Hr0 in Hc; apply andb_prop in Hc; destruct Hc as [Hc _]; exact Hc end).
   all: unfold settled; simpl; rewrite ?upd_same; auto; try contradiction; try tauto.
 Qed.
 
